@@ -177,6 +177,9 @@ def fault_part(ctx):
             cfg = {'extractor': rng.choice([e for e in fr.EXTRACTORS if e != 'ok_calls_output']), 'fail_save': rng.random() < 0.15, 'rate': rng.choice([None, None, 0, 0.5, 1]),
                    'copy': rng.choice([None, True, False]), 'kind': rng.choice(['memory', 'memory', 'async', 'file', 's3', 's3calc']),
                    'caller_context': fr.CALLER_CONTEXTS[idx % 9] if idx % 9 < 4 else 'plain'}     # also called from except / finally blocks
+            if idx % 7 == 3:
+                cfg['verbose'] = True        # DEBUG logging on, service object and some values printable by their owner only
+                ctx.count('runs_with_debug_logging_and_unprintable_values')
             if idx % 5 == 0 and cfg['kind'] != 'async':
                 # the recorder has a past (earlier operations, replays, a failed replay of an imported recording ...)
                 from playback.tape_recorder import TapeRecorder
@@ -212,8 +215,8 @@ def fault_part(ctx):
                 fr.close(res)
         # recording disabled: pure pass-through, the cassette must see nothing
         if ctx.mine(pi):
-            for faults in pls[:6]:
-                res = fr.execute(prog, fr.service_faults(faults), enabled=False)
+            for fi, faults in enumerate(pls[:6]):
+                res = fr.execute(prog, fr.service_faults(faults), enabled=False, verbose=fi % 3 == 2)
                 try:
                     w = {'gen_seed': prog['gen_seed'], 'program': describe(prog), 'faults': fr.faults_json(faults), 'config': 'recording disabled'}
                     ctx.case({'p': prog['gen_seed'], 'f': fr.faults_json(faults), 'c': 'disabled'})
@@ -224,6 +227,104 @@ def fault_part(ctx):
                 finally:
                     fr.close(res)
     ctx.sample({'program': describe(progs[0]), 'placements': [fr.faults_json(f) for f in fr.all_placements(progs[0], pairs=False)[:8]]})
+
+
+def disabled_passthrough_part(ctx):
+    """Recording disabled (never enabled / switched off again): every decorator is a pure pass-through, whatever the shape of the
+    decorated callable and of the call - plain functions called with keywords only or without arguments, self / cls passed by
+    keyword, instances of a class that cannot be hashed (its metaclass defines __eq__)."""
+    from playback.tape_recorder import TapeRecorder
+    from playback.tape_cassettes.in_memory.in_memory_tape_cassette import InMemoryTapeCassette
+    from vlib.spies import SpyCassette
+    from vlib.values import UserError
+
+    class EqMeta(type):
+        def __eq__(cls, other):
+            return getattr(other, '__name__', None) == cls.__name__
+        # (defining __eq__ without __hash__ makes the classes of this metaclass unhashable)
+
+    def build(rec):
+        ident = (lambda: (lambda f: f))
+        op = rec.operation if rec else ident
+        cop = rec.class_operation if rec else ident
+        inp = (lambda alias: rec.intercept_input(alias)) if rec else (lambda alias: (lambda f: f))
+        sinp = (lambda alias: rec.static_intercept_input(alias)) if rec else (lambda alias: (lambda f: f))
+        outp = (lambda alias: rec.intercept_output(alias)) if rec else (lambda alias: (lambda f: f))
+        soutp = (lambda alias: rec.static_intercept_output(alias)) if rec else (lambda alias: (lambda f: f))
+
+        @op()
+        def send_report(customer='nobody', period='day'):
+            if customer == 'bad':
+                raise UserError('no such customer')
+            return ('report', customer, period)
+
+        @sinp('dp.rate')
+        def rate(currency='eur'):
+            return {'rate': len(currency)}
+
+        @soutp('dp.emit')
+        def emit(what='nothing'):
+            return ('emitted', what)
+
+        class Importer(object):
+            @op()
+            def run(self, source='default', dry_run=False):
+                return ('ran', source, dry_run, self.load(key=source), self.store(row=1))
+
+            @inp('dp.load')
+            def load(self, key=None):
+                return ['loaded', key]
+
+            @outp('dp.store')
+            def store(self, row=None):
+                return ('stored', row)
+
+        def rebuild(cls, index='main'):
+            return ('rebuilt', cls.__name__, index)
+        Importer.rebuild_func = staticmethod(cop()(rebuild))
+        Importer.rebuild = classmethod(cop()(rebuild))
+
+        class Model(EqMeta('ModelBase', (object,), {})):
+            @op()
+            def refresh(self, deep=False):
+                return ('refreshed', deep, rate(currency='usd'), emit('x'))
+        imp, model = Importer(), Model()
+        return [('function, no arguments', lambda: send_report()),
+                ('function, keywords only', lambda: send_report(customer='acme', period='month')),
+                ('function, keywords only, raises', lambda: send_report(customer='bad')),
+                ('function, positional', lambda: send_report('acme')),
+                ('method, keywords', lambda: imp.run(source='s3://in', dry_run=True)),
+                ('method, self by keyword', lambda: Importer.run(self=imp, source='s3://in')),
+                ('class operation', lambda: Importer.rebuild(index='aux')),
+                ('class operation, cls by keyword', lambda: Importer.rebuild_func(cls=Importer, index='aux')),
+                ('instance of an unhashable class', lambda: model.refresh(True)),
+                ('static input, keywords only', lambda: rate(currency='usd')),
+                ('static input, no arguments', lambda: rate()),
+                ('static output, no arguments', lambda: emit()),
+                ('input, self by keyword', lambda: Importer.load(self=imp, key='k')),
+                ('output, self by keyword', lambda: Importer.store(self=imp, row=3))]
+
+    def outcome(fn):
+        try:
+            return ('returned', fn())
+        except BaseException as ex:  # noqa
+            return ('raised', type(ex).__name__)
+    expected = [(n, outcome(f)) for n, f in build(None)]
+    for state in ('never enabled', 'enabled and disabled again'):
+        spy = SpyCassette(InMemoryTapeCassette())
+        rec = TapeRecorder(spy)
+        if state != 'never enabled':
+            rec.enable_recording()
+            rec.disable_recording()
+        for (name, fn), (_, exp) in zip(build(rec), expected):
+            got = outcome(fn)
+            ctx.case(('disabled-shape', state, name))
+            ctx.count('disabled_call_shapes_compared')
+            if got != exp:
+                ctx.violation('recording disabled, yet the decorated callable behaves differently from the undecorated one',
+                              {'disabled_shapes': True, 'state': state, 'call': name, 'decorated': repr(got)[:200], 'undecorated': repr(exp)[:200]})
+        if spy.log:
+            ctx.violation('cassette touched although recording is disabled', {'disabled_shapes': True, 'state': state, 'calls': [e[0] for e in spy.log][:5]})
 
 
 def async_dead_flusher(ctx):
@@ -275,6 +376,7 @@ def run(ctx):
     fault_part(ctx)
     if ctx.shard == 0:
         async_dead_flusher(ctx)
+        disabled_passthrough_part(ctx)
     try:
         from checks import C04_sched
     except ImportError:
@@ -286,6 +388,8 @@ def run(ctx):
 
 
 def replay(ctx, w):
+    if w.get('disabled_shapes'):
+        return disabled_passthrough_part(ctx)
     if 'schedule' in w:
         from checks import C04_sched
         return C04_sched.replay(ctx, w)
